@@ -4,7 +4,7 @@
    The first layer (Properties_C16.v) is about the ideal node database.  This layer is about the tables the library
    really keeps, as transcribed in Refcount.v (current code: variants Cur / MCur) with the getters of Handles.v:
      MLL   cgns_files[] / n_open / file_number_offset, getter cgi_get_file
-     cgio  iolist[] / num_open, getter get_cgnsio (range test) and the slot's content (cgio_resolve)
+     cgio  iolist[] / num_open, getter get_cgnsio (range test + the slot is not closed) and the slot's content (cgio_resolve)
      ADF   ADF_file[], getter = the file index inside a node ID + the in_use test (adf_resolve)
    A session is ANY list of opens (succeeding, failing early, failing late), closes of any number (valid, stale, never
    issued) and -- cgio/ADF -- link traversals; [mh_run] / [hrun] carry, next to the state, the list of (handle, slot the
@@ -70,23 +70,24 @@ Theorem C16_mll_number_reissued_old_refuted :
 Proof. exact mll_number_reissued_old. Qed.
 Print Assumptions C16_mll_number_reissued_old_refuted.
 
-(* cgio: every function that looks at the slot refuses such a number and nothing changes (cgio_close_file, and the
-   cgio_get_node_id / cgio_get_label of a traversal) *)
+(* cgio: the getter itself refuses such a number (out of range or a closed slot; /repo 137980e), so EVERY cgio function
+   does; cgio_close_file answers CGIO_ERR_BAD_CGIO and a traversal fails, nothing changes *)
 Theorem C16_closed_handle_rejected_cgio : forall w fuel ops s live, hrun fuel w io_init [] ops = Some (s, live) ->
   forall c, ~ In c (map l_h live) ->
-    cgio_resolve s c = None /\
-    (exists r, cgio_close_file Cur fuel s c = Some (s, r) /\ (r = RBadCgio \/ r = RFileType)) /\
+    get_cgnsio s c = false /\ cgio_resolve s c = None /\
+    cgio_close_file Cur fuel s c = Some (s, RBadCgio) /\
     forall ch, cgio_walk Cur fuel w s c ch = Some (s, false).
 Proof. exact io_closed_handle_rejected. Qed.
 Print Assumptions C16_closed_handle_rejected_cgio.
 
-(* ... but get_cgnsio itself tests the range only: a closed number is ACCEPTED while another file keeps the table alive,
-   so cgio_get_file_type / cgio_get_root_id / cgio_release_id answer status 0 for it (C12 known keys) *)
-Theorem C16_cgio_closed_slot_accepted_refuted :
+(* the OLD getter (before 137980e) tested the range only: a closed number was accepted while another file kept the table
+   alive, so cgio_get_file_type / cgio_get_root_id / cgio_release_id answered status 0 for it.  The witness session is a
+   regression input (corpus/C16b). *)
+Theorem C16_cgio_closed_slot_accepted_old_refuted :
   exists s live, hrun 100 w1 io_init [] [OOpen 0 false; OOpen 1 false; OClose 2] = Some (s, live) /\
-                 ~ In 2 (map l_h live) /\ cgio_resolve s 2 = None /\ get_cgnsio s 2 = true /\ cgio_get_file_type_ok s 2 = true.
-Proof. exact io_closed_slot_accepted. Qed.
-Print Assumptions C16_cgio_closed_slot_accepted_refuted.
+                 ~ In 2 (map l_h live) /\ cgio_resolve s 2 = None /\ get_cgnsio_old s 2 = true /\ get_cgnsio s 2 = false.
+Proof. exact io_closed_slot_accepted_old. Qed.
+Print Assumptions C16_cgio_closed_slot_accepted_old_refuted.
 
 (* ADF: a file index whose slot is not in use is refused with ADF_FILE_NOT_OPENED and nothing changes (both variants) *)
 Theorem C16_closed_handle_rejected_adf : forall v fuel a i, adf_resolve a i = None ->
